@@ -2,13 +2,22 @@
 package c35
 
 import (
+	"bytes"
 	"fmt"
+	"os"
+	"os/exec"
+	"path/filepath"
+	"runtime"
+	"sort"
 	"strconv"
 	"strings"
+	"sync"
+	"time"
 
 	"github.com/zmap/zcrypto/tls"
 
 	"zv/internal/zv"
+	"zv/props/c35/lin"
 )
 
 type op struct {
@@ -70,7 +79,25 @@ func (r *ref) get(k int) (int, bool) {
 	return v, ok
 }
 
-func exec(line string) zv.Out {
+func execLine(line string) zv.Out {
+	f := strings.Fields(line)
+	if len(f) >= 2 {
+		switch f[1] {
+		case "st":
+			return execState(f)
+		case "acc":
+			return execAcc(f)
+		case "conc":
+			return execConc(f)
+		case "concb":
+			return execRounds(f, false)
+		case "race":
+			return execRounds(f, true)
+		}
+	}
+	if len(f) != 3 {
+		return zv.Out{Go: "bad-op"}
+	}
 	capacity, ops := parse(line)
 	c := tls.NewLRUClientSessionCache(capacity)
 	rc := capacity
@@ -207,9 +234,527 @@ func gen(g *zv.Gen) {
 		}
 		emit(g, cap, ops, nk)
 	}
+	gen2(g)
+}
+
+func joinOps(ops []lin.Op) string {
+	var ss []string
+	for _, o := range ops {
+		ss = append(ss, o.String())
+	}
+	return strings.Join(ss, ",")
+}
+
+func randOps(r *zv.Rng, l, nk, nv int) []lin.Op {
+	ops := make([]lin.Op, l)
+	for j := range ops {
+		ops[j] = lin.Op{Put: r.Chance(60), Key: r.Intn(nk)}
+		if ops[j].Put && !r.Chance(25) {
+			ops[j].Val = 1 + r.Intn(nv)
+		}
+	}
+	return ops
+}
+
+// gen2: the second-wave streams (internal state, default capacity reached, sequential acceptance, concurrency).
+func gen2(g *zv.Gen) {
+	r := g.Rng
+	// (1) internal state after every history up to length 3 over 3 keys, capacities 1..3
+	var alphabet []lin.Op
+	for k := 0; k < 3; k++ {
+		alphabet = append(alphabet, lin.Op{Key: k})
+		for v := 0; v <= 2; v++ {
+			alphabet = append(alphabet, lin.Op{Put: true, Key: k, Val: v})
+		}
+	}
+	for cap := 1; cap <= 3; cap++ {
+		var rec func(prefix []lin.Op)
+		rec = func(prefix []lin.Op) {
+			if len(prefix) > 0 {
+				g.Emitf("c35 st %d %s", cap, joinOps(prefix))
+			}
+			if len(prefix) == 3 {
+				return
+			}
+			for _, a := range alphabet {
+				rec(append(append([]lin.Op{}, prefix...), a))
+			}
+		}
+		rec(nil)
+	}
+	// (2) internal state after random histories
+	for i, n := 0, g.N(8000, 150000); i < n; i++ {
+		cap := 1 + r.Intn(6)
+		if r.Chance(5) {
+			cap = -r.Intn(3)
+		}
+		g.Emitf("c35 st %d %s", cap, joinOps(randOps(r, 1+r.Intn(40), 2+r.Intn(8), 9)))
+	}
+	// (3) the default capacity really reached: capacity < 1, more distinct keys than the default holds
+	//     (fills 64 entries, then evicts), boundaries 63/64/65/66 keys, with Gets and nil Puts in between
+	for _, cap := range []int{0, -1, -7} {
+		for _, nk := range []int{63, 64, 65, 66, 80} {
+			var ops []lin.Op
+			for k := 0; k < nk; k++ {
+				ops = append(ops, lin.Op{Put: true, Key: k, Val: 1 + k%5})
+			}
+			g.Emitf("c35 st %d %s", cap, joinOps(ops))
+			g.Emitf("c35 %d %s,g0,g1,g%d,g%d", cap, joinOps(ops), nk-2, nk-1)
+			ops = append(ops, lin.Op{Key: 1}, lin.Op{Put: true, Key: 2}, lin.Op{Put: true, Key: 100, Val: 3}, lin.Op{Put: true, Key: 101, Val: 4})
+			g.Emitf("c35 st %d %s", cap, joinOps(ops))
+		}
+	}
+	for i, n := 0, g.N(60, 2000); i < n; i++ {
+		cap := -r.Intn(3)
+		l := 70 + r.Intn(120)
+		g.Emitf("c35 st %d %s", cap, joinOps(randOps(r, l, 60+r.Intn(20), 5)))
+		ops := randOps(r, l, 60+r.Intn(20), 5)
+		var probe []string
+		for k := 0; k < 6; k++ {
+			probe = append(probe, "g"+strconv.Itoa(r.Intn(80)))
+		}
+		g.Emitf("c35 %d %s,%s", cap, joinOps(ops), strings.Join(probe, ","))
+	}
+	// explicit capacities around the boundary of the guard `capacity < 1`
+	for _, cap := range []int{-2, -1, 0, 1, 2, 63, 64, 65, 1000} {
+		g.Emitf("c35 st %d p0:1,p1:2,p2:3,g0", cap)
+	}
+	// (4) sequential-history acceptance: recorded returns right / one flipped / random
+	for i, n := 0, g.N(6000, 100000); i < n; i++ {
+		cap := 1 + r.Intn(4)
+		if r.Chance(3) {
+			cap = 0
+		}
+		ops := randOps(r, 1+r.Intn(24), 2+r.Intn(5), 4)
+		ref := lin.NewRef(cap)
+		var h []lin.Call
+		for _, o := range ops {
+			h = append(h, lin.Call{Op: o, Ret: ref.Step(o)})
+		}
+		switch r.Intn(3) {
+		case 1: // flip one recorded Get return
+			var gets []int
+			for j, c := range h {
+				if !c.Op.Put {
+					gets = append(gets, j)
+				}
+			}
+			if len(gets) > 0 {
+				j := gets[r.Intn(len(gets))]
+				switch r.Intn(3) {
+				case 0:
+					h[j].Ret.Ok = !h[j].Ret.Ok
+				case 1:
+					h[j].Ret.Val = (h[j].Ret.Val + 1 + r.Intn(3)) % 5
+				default:
+					h[j].Ret = lin.Ret{Val: r.Intn(5), Ok: r.Bool()}
+				}
+			}
+		case 2:
+			for j := range h {
+				if !h[j].Op.Put && r.Chance(30) {
+					h[j].Ret = lin.Ret{Val: r.Intn(5), Ok: r.Bool()}
+				}
+			}
+		}
+		var ss []string
+		for _, c := range h {
+			ss = append(ss, c.String())
+		}
+		g.Emitf("c35 acc %d %s", cap, strings.Join(ss, ","))
+	}
+	// malformed lines (both sides answer bad-op)
+	g.Emit("c35 st x p0:1")
+	g.Emit("c35 st 2 q1")
+	g.Emit("c35 acc 2 g1")
+	g.Emit("c35 acc 2 p1:1=1/t")
+	g.Emit("c35 acc 2 g1=2/x")
+	g.Emit("c35 acc 2 g1=n/f=1")
+	// (5) goroutines on ONE cache; history checked for linearizability against the sequential specification
+	for i, n := 0, g.N(150, 2000); i < n; i++ {
+		cap := 1 + r.Intn(3)
+		nt := 2 + r.Intn(3)
+		nk := 1 + r.Intn(3)
+		var ts []string
+		for t := 0; t < nt; t++ {
+			ts = append(ts, joinOps(randOps(r, 1+r.Intn(5), nk, 4)))
+		}
+		g.Emitf("c35 conc %d %d %s", cap, 1+r.Intn(1<<30), strings.Join(ts, "|"))
+	}
+	for i, n := 0, g.N(8, 40); i < n; i++ {
+		g.Emitf("c35 concb %d %d", 1+r.Intn(1<<30), g.N(2500, 10000))
+	}
+	// (6) the same kind of workload in a -race build
+	for i, n := 0, g.N(4, 12); i < n; i++ {
+		g.Emitf("c35 race %d %d", 1+r.Intn(1<<30), g.N(150, 500))
+	}
 }
 
 func init() {
-	zv.Register(&zv.Prop{ID: "C35", Topic: "c35", Gen: gen, Exec: exec,
-		Rule: "every Put/Get history up to length 4 (quick) / 5 (thorough) over 3 keys x {nil,s1,s2} x capacity 1..3, plus random histories up to 40 ops over 2..7 keys, capacity 1..5 and the <1 default; each followed by a Get of every key; a case is one distinct history; T3 = independent bounded-LRU reference (nil Put = delete only)"})
+	zv.Register(&zv.Prop{ID: "C35", Topic: "c35", Gen: gen, Exec: execLine, Timeout: 400 * time.Second,
+		Rule: "every Put/Get history up to length 4 (quick) / 5 (thorough) over 3 keys x {nil,s1,s2} x capacity 1..3, plus random histories up to 40 ops over 2..7 keys, capacity 1..5 and the <1 default; each followed by a Get of every key; a case is one distinct history; T3 = independent bounded-LRU reference (nil Put = delete only). " +
+			"Second wave: `st` lines compare the INTERNAL state (capacity, q front to back, index map m and what it points at; hook ZVC35Dump) after every history up to length 3 " +
+			"and after random ones, including capacity < 1 with 63..80+ distinct keys (default capacity filled and evicting); `acc` lines = sequential histories with recorded returns " +
+			"(right / one flipped / random) accepted or rejected by the checker's specification vs ZV.C35.accepts, and vs the real cache run sequentially; " +
+			"`conc` lines = 2..4 goroutines x 1..5 ops on ONE cache, 8 runs each, history checked for linearizability; `concb` lines = 2500/10000 random such workloads; `race` lines = 150/500 such workloads in a -race build (all T3 only, in helper processes)"})
+}
+
+// ---- `c35 st <cap> <ops>`: the internal state (capacity, q, m) after a sequential history --------------------
+
+func keyNum(k string) int {
+	n, err := strconv.Atoi(strings.TrimPrefix(k, "k"))
+	if err != nil {
+		return -1
+	}
+	return n
+}
+
+func execState(f []string) zv.Out {
+	if len(f) != 4 {
+		return zv.Out{Go: "bad-op"}
+	}
+	capacity, err := strconv.Atoi(f[2])
+	ops, err2 := lin.ParseOps(f[3])
+	if err != nil || err2 != nil {
+		return zv.Out{Go: "bad-op"}
+	}
+	maxID := 0
+	for _, o := range ops {
+		if o.Val > maxID {
+			maxID = o.Val
+		}
+	}
+	c := lin.NewCache(capacity, maxID)
+	r := lin.NewRef(capacity)
+	evictions, evictAtDefault := 0, false
+	for _, o := range ops {
+		if o.Put && o.Val != 0 && !r.Has(o.Key) && len(r.Q) == r.Cap {
+			evictions++
+			if capacity < 1 {
+				evictAtDefault = true
+			}
+		}
+		c.Do(o)
+		r.Step(o)
+	}
+	capQ, qLen, q, m, ok := tls.ZVC35Dump(c.C)
+	if !ok {
+		return zv.Out{Go: "not-lru", Viol: "NewLRUClientSessionCache did not return an *lruSessionCache"}
+	}
+	viol := ""
+	var qs, ms []string
+	ids := map[*tls.ClientSessionState]int{}
+	for i := 1; i <= maxID; i++ {
+		ids[c.State(i)] = i
+	}
+	for _, e := range q {
+		id := "n"
+		if e.State != nil {
+			id = strconv.Itoa(ids[e.State])
+		}
+		qs = append(qs, fmt.Sprintf("%d:%s", keyNum(e.Key), id))
+	}
+	var mk []int
+	for k := range m {
+		mk = append(mk, keyNum(k))
+	}
+	sort.Ints(mk)
+	for _, k := range mk {
+		pos := m[lin.KeyName(k)]
+		t := strconv.Itoa(k)
+		if pos < 0 || pos >= len(q) || q[pos].Key != lin.KeyName(k) {
+			t += "!" // the map does not point at the list element carrying this key
+			if viol == "" {
+				viol = fmt.Sprintf("index map entry for k%d points at list position %d, which does not carry that key", k, pos)
+			}
+		}
+		ms = append(ms, t)
+	}
+	// T3: the state is that of the independent bounded-LRU reference
+	if viol == "" {
+		if len(q) != len(r.Q) {
+			viol = fmt.Sprintf("cache holds %d entries, the bounded LRU map %d", len(q), len(r.Q))
+		} else {
+			for i, e := range r.Q {
+				if keyNum(q[i].Key) != e[0] || ids[q[i].State] != e[1] {
+					viol = fmt.Sprintf("recency position %d holds %s, the bounded LRU map has k%d:%d", i, qs[i], e[0], e[1])
+					break
+				}
+			}
+		}
+		if viol == "" && (capQ != r.Cap || qLen != len(q) || qLen > capQ) {
+			viol = fmt.Sprintf("capacity %d (expected %d), q.Len()=%d, %d elements", capQ, r.Cap, qLen, len(q))
+		}
+	}
+	dash := func(l []string) string {
+		if len(l) == 0 {
+			return "-"
+		}
+		return strings.Join(l, ",")
+	}
+	out := fmt.Sprintf("cap=%d len=%d q=%s m=%s", capQ, qLen, dash(qs), dash(ms))
+	tags := []string{"st", fmt.Sprintf("st-cap=%d", capacity), fmt.Sprintf("st-evictions=%s", bucket(evictions))}
+	if evictAtDefault {
+		tags = append(tags, "st-eviction-at-default-capacity")
+	}
+	if len(q) == capQ {
+		tags = append(tags, "st-final-full")
+	}
+	return zv.Out{Go: out, Viol: viol, Tags: tags}
+}
+
+func bucket(n int) string {
+	switch {
+	case n == 0:
+		return "0"
+	case n < 4:
+		return "1-3"
+	case n < 16:
+		return "4-15"
+	}
+	return "16+"
+}
+
+// ---- `c35 acc <cap> <calls>`: sequential-history acceptance (the checker's specification vs ZV.C35.accepts) ----
+
+func parseCalls(s string) ([]lin.Call, bool) {
+	var h []lin.Call
+	for _, t := range strings.Split(s, ",") {
+		p := strings.Split(t, "=")
+		o, err := lin.ParseOp(p[0])
+		if err != nil || len(p) > 2 {
+			return nil, false
+		}
+		c := lin.Call{Op: o}
+		if o.Put != (len(p) == 1) {
+			return nil, false
+		}
+		if !o.Put {
+			vb := strings.Split(p[1], "/")
+			if len(vb) != 2 || (vb[1] != "t" && vb[1] != "f") {
+				return nil, false
+			}
+			if vb[0] != "n" {
+				v, err := strconv.Atoi(vb[0])
+				if err != nil || v < 0 {
+					return nil, false
+				}
+				c.Ret.Val = v
+			}
+			c.Ret.Ok = vb[1] == "t"
+		}
+		h = append(h, c)
+	}
+	return h, true
+}
+
+func execAcc(f []string) zv.Out {
+	if len(f) != 4 {
+		return zv.Out{Go: "bad-op"}
+	}
+	capacity, err := strconv.Atoi(f[2])
+	h, ok := parseCalls(f[3])
+	if err != nil || !ok {
+		return zv.Out{Go: "bad-op"}
+	}
+	acc := lin.SeqAccepts(capacity, h)
+	// T3: the REAL cache, run sequentially on the same operations, returns the recorded values iff accepted
+	var threads [][]lin.Op
+	threads = append(threads, nil)
+	for _, c := range h {
+		threads[0] = append(threads[0], c.Op)
+	}
+	rc := lin.NewCache(capacity, lin.MaxID(threads))
+	real := true
+	for _, c := range h {
+		got := rc.Do(c.Op)
+		if !c.Op.Put && got != c.Ret {
+			real = false
+		}
+	}
+	out, viol := "rej", ""
+	if acc {
+		out = "acc"
+	}
+	if acc != real {
+		viol = fmt.Sprintf("sequential history accepted by the specification: %v, reproduced by the real cache: %v", acc, real)
+	}
+	return zv.Out{Go: out, Viol: viol, Tags: []string{"acc", "acc-" + out}}
+}
+
+// ---- concurrency (T3 only) -------------------------------------------------------------------------------------
+// `c35 conc <cap> <seed> <ops|ops|…>`  goroutines (one per `|` part) on ONE cache, 8 runs; every history checked for
+//                                      linearizability against the sequential specification (lin.Ref)
+// `c35 concb <seed> <rounds>`          <rounds> random workloads of that kind (lin.GenThreads)
+// `c35 race <seed> <rounds>`           the same in a `-race` build of helper + zcrypto
+// All of them run in a helper process (go/props/c35/racecmd, built plain and with -race), because unsynchronised map
+// access ends a Go process with a fatal error that cannot be recovered: the helper's death is then a violation
+// of THIS line instead of the end of the whole harness run.
+
+func execConc(f []string) zv.Out {
+	if len(f) != 5 {
+		return zv.Out{Go: "bad-op"}
+	}
+	_, err := strconv.Atoi(f[2])
+	_, err2 := strconv.ParseUint(f[3], 10, 64)
+	threads, err3 := lin.ParseThreads(f[4])
+	if err != nil || err2 != nil || err3 != nil {
+		return zv.Out{Go: "bad-op"}
+	}
+	seed, _ := strconv.ParseUint(f[3], 10, 64)
+	return runHelper(false, seed, []string{"conc", fmt.Sprintf("conc-threads=%d", len(threads))}, "one", f[2], f[3], f[4], "8")
+}
+
+func execRounds(f []string, race bool) zv.Out {
+	if len(f) != 4 {
+		return zv.Out{Go: "bad-op"}
+	}
+	seed, err := strconv.ParseUint(f[2], 10, 64)
+	rounds, err2 := strconv.Atoi(f[3])
+	if err != nil || err2 != nil || rounds < 1 {
+		return zv.Out{Go: "bad-op"}
+	}
+	tag := "concb"
+	if race {
+		tag = "race-run"
+	}
+	return runHelper(race, seed, []string{tag}, "rounds", f[2], f[3])
+}
+
+type helper struct {
+	once sync.Once
+	bin  string
+	err  string
+}
+
+var helpers [2]helper // 0 plain, 1 -race
+
+func goDir() string {
+	_, file, _, ok := runtime.Caller(0)
+	if ok {
+		d := filepath.Dir(filepath.Dir(filepath.Dir(file))) // …/go
+		if _, err := os.Stat(filepath.Join(d, "go.mod")); err == nil {
+			return d
+		}
+	}
+	if exe, err := os.Executable(); err == nil { // <verif>/.build/zvharness
+		d := filepath.Join(filepath.Dir(filepath.Dir(exe)), "go")
+		if _, err := os.Stat(filepath.Join(d, "go.mod")); err == nil {
+			return d
+		}
+	}
+	return ""
+}
+
+func goEnv() []string {
+	var env []string
+	for _, kv := range os.Environ() {
+		switch strings.SplitN(kv, "=", 2)[0] {
+		case "GOFLAGS", "GOPROXY", "GOTOOLCHAIN", "GOSUMDB", "GONOSUMDB", "GONOSUMCHECK", "GOMEMLIMIT", "GORACE", "GOMAXPROCS":
+			continue
+		}
+		env = append(env, kv)
+	}
+	return append(env, "GOFLAGS=-mod=mod", "GOPROXY=off")
+}
+
+// build (re)builds a helper once per harness process into <verif>/.build (never under the system temp directory):
+// `go build -o` leaves an up-to-date target alone, relinks it when zcrypto or the harness sources changed, and
+// creates it when absent.
+func (h *helper) build(race bool) {
+	d := goDir()
+	if d == "" {
+		h.err = "cannot locate the harness source directory (go.mod) to build the concurrency helper"
+		return
+	}
+	bdir := filepath.Join(filepath.Dir(d), ".build")
+	if err := os.MkdirAll(bdir, 0o755); err != nil {
+		h.err = "cannot create " + bdir + ": " + err.Error()
+		return
+	}
+	name, args := "zv-c35-conccmd", []string{"build", "-tags", "verif"}
+	if race {
+		name, args = "zv-c35-racecmd", []string{"build", "-race", "-tags", "verif"}
+	}
+	final := filepath.Join(bdir, name)
+	out := fmt.Sprintf("%s.%d", final, os.Getpid())
+	if b, err := os.ReadFile(final); err == nil { // start from the previous binary so that nothing is relinked when up to date
+		os.WriteFile(out, b, 0o755)
+	}
+	cmd := exec.Command("go", append(args, "-o", out, "./props/c35/racecmd")...)
+	cmd.Dir = d
+	cmd.Env = goEnv()
+	b, err := cmd.CombinedOutput()
+	if err != nil {
+		os.Remove(out)
+		h.err = "go " + strings.Join(args, " ") + " failed: " + err.Error() + "\n" + string(b)
+		return
+	}
+	if err := os.Rename(out, final); err != nil {
+		h.bin = out
+		return
+	}
+	h.bin = final
+}
+
+func runHelper(race bool, seed uint64, tags []string, args ...string) zv.Out {
+	h := &helpers[0]
+	if race {
+		h = &helpers[1]
+	}
+	h.once.Do(func() { h.build(race) })
+	if h.err != "" {
+		return zv.Out{Viol: h.err, Tags: []string{"helper-build-failed"}}
+	}
+	procs := []string{"2", "4", "8"}[seed%3]
+	cmd := exec.Command(h.bin, args...)
+	cmd.Env = append(goEnv(), "GORACE=halt_on_error=0 exitcode=66", "GOMAXPROCS="+procs)
+	var stdout, stderr bytes.Buffer
+	cmd.Stdout, cmd.Stderr = &stdout, &stderr
+	if err := cmd.Start(); err != nil {
+		return zv.Out{Viol: "cannot start concurrency helper: " + err.Error()}
+	}
+	done := make(chan error, 1)
+	go func() { done <- cmd.Wait() }()
+	var werr error
+	select {
+	case werr = <-done:
+	case <-time.After(200 * time.Second):
+		cmd.Process.Kill()
+		<-done
+		return zv.Out{Viol: "concurrency helper did not finish within 200 s (deadlock?)\n" + tail(stderr.String(), 1500), Tags: append(tags, "helper-timeout")}
+	}
+	tags = append(tags, tags[0]+"-GOMAXPROCS="+procs)
+	se := stderr.String()
+	if i := strings.Index(se, "WARNING: DATA RACE"); i >= 0 {
+		return zv.Out{Viol: "data race reported by the race detector during concurrent Get/Put on one cache:\n" + tail2(se[i:], 1800), Tags: append(tags, "DATA-RACE")}
+	}
+	if i := strings.Index(se, "fatal error:"); i >= 0 {
+		return zv.Out{Viol: "Go runtime fatal error during concurrent Get/Put on one cache: " + tail2(se[i:], 900), Tags: append(tags, "FATAL")}
+	}
+	so := strings.TrimSpace(stdout.String())
+	if strings.HasPrefix(so, "violation:") {
+		return zv.Out{Viol: tail2(so, 2500), Tags: append(tags, "NOT-LINEARIZABLE")}
+	}
+	if werr != nil || !strings.HasPrefix(so, "ok") {
+		return zv.Out{Viol: "concurrency helper: " + fmt.Sprint(werr) + " " + tail(so, 1200) + "\n" + tail(se, 1200), Tags: append(tags, "helper-failed")}
+	}
+	if !strings.HasSuffix(so, "overlaps=0") {
+		tags = append(tags, tags[0]+"-calls-overlapped")
+	}
+	return zv.Out{Tags: tags}
+}
+
+func tail(s string, n int) string {
+	if len(s) > n {
+		return "…" + s[len(s)-n:]
+	}
+	return s
+}
+
+func tail2(s string, n int) string { // head, actually: the first report
+	if len(s) > n {
+		return s[:n] + "…"
+	}
+	return s
 }
